@@ -17,7 +17,7 @@ EXPLANATION = (
     "constructors must label a magnitude with the units it is expressed in; in-place forms must return self with "
     "magnitude and units in agreement; only self may be converted in place); G-TWIN between functional and in-place "
     "forms; operand order of the reflected forms; dimensionality gate dominating addition/subtraction; the int->"
-    "non_int_type cast of true division applies if either operand is an int. Decides these clauses on every loop-free "
+    "non_int_type cast of true division applies if either operand is an int. Also decided: 0/1 shortcuts on an exponent compare the exponent as given (unit aware) and the exponent used is the root-unit magnitude of a dimensionless quantity or the coerced bare number; int/float/complex coercions agree and use the value in no units; the both-zero equality shortcut needs multiplicative units on both sides; in-place conversion primitives (_convert_magnitude, ito*) are called only by in-place forms on their own target (package-wide who-may-call). Decides these clauses on every loop-free "
     "path of the anchored methods; does not decide numerical agreement, NaN/zero element-wise semantics or broadcasting.")
 
 ARITH = [("_add_sub", False), ("_iadd_sub", True), ("__floordiv__", False), ("__ifloordiv__", True), ("__rfloordiv__", False),
